@@ -381,6 +381,35 @@ class Ref(object):
         return rt, st
 
 
+# --------------------------------------------------------------------------- what a node has been shown (lossy LANs)
+
+
+def iam_router_nets(n):
+    """Network numbers listed by an I-Am-Router-To-Network message (clause 6.4.2); n: independent NPCI parse."""
+    if n.get("netmsg") != 1:
+        return []
+    p = n["payload"]
+    return [(p[i] << 8) | p[i + 1] for i in range(0, len(p) - 1, 2)]
+
+
+def path_shown(ref, frames, delivered, k, ni):
+    """When an I-Am-Router-To-Network may be lost (nobody repeats it) a node can be left without a way to a network
+    through no fault of its own.  This says whether station k *has* been shown the way to network ni by what its LAN
+    really delivered to it: an I-Am-Router-To-Network naming the network (6.4.2), or a routed frame whose SNET is that
+    network (6.2.2: SNET/SADR name the originator, the MAC source is the router that leads back to it; in a tree every
+    router on that way has handled the same frame).  -> None or "announcement" / "routed-traffic" (the first seen).
+    frames: dicts with net, src, dst, serial, n (independent NPCI parse); delivered: serials that were delivered."""
+    (on, mac) = ref.stations[k]
+    for f in frames:
+        if f["net"] != on or f["serial"] not in delivered or f["dst"] not in ("*", str(mac)) or f["src"] == str(mac):
+            continue
+        if ref.nets[ni] in iam_router_nets(f["n"]):
+            return "announcement"
+        if f["n"].get("snet") == ref.nets[ni]:
+            return "routed-traffic"
+    return None
+
+
 # --------------------------------------------------------------------------- NPDU builder (clause 6.2)
 
 
